@@ -83,3 +83,167 @@ def c14(groups, f64=False):
                                 % (d_sexpr(p.desc), t + 1, got, exp, " (f64 bits)" if f64 else ""), g, step=t + 1))
                 break
     return out
+
+# ---------------------------------------------------------------------------------- generic helpers
+from . import specs as SP
+from . import surrogate as SG
+
+def spec_for(d):
+    """batch specification of a stand-alone descriptor over Echo: function xs -> expected outputs, or None"""
+    name = d[0]
+    n = d[1] if len(d) > 1 and isinstance(d[1], int) else None
+    tbl = {"Sma": SP.sma, "Cumulative": SP.cumulative, "Min": SP.vmin, "Max": SP.vmax, "WelfordMean": SP.welford_mean,
+           "WelfordVar": SP.welford_var, "Welford": SP.welford, "Vst": SP.vst, "Vsct": SP.vsct, "Hln": SP.hln, "Roc": SP.roc,
+           "Entropy": SP.entropy, "Ema": SP.ema, "Alma": SP.alma, "Rsi": SP.rsi, "MyRsi": SP.myrsi, "Cti": SP.cti_full, "Net": SP.net,
+           "Cog": SP.cog, "Ss": SP.ss, "Lrsi": SP.lrsi, "TrendFlex": SP.trendflex, "ReFlex": SP.reflex}
+    if name in tbl and d[-1] == E:
+        return lambda xs: tbl[name](n, xs)
+    if name == "Cyber" and d[-1] == E and n >= 6:
+        return lambda xs: SP.cyber(n, xs)
+    if name == "Roofing" and d[-1] == E:
+        return lambda xs: SP.roofing(d[1], d[2], xs)
+    if name == "Laguerre" and d[-1] == E:
+        return lambda xs: SP.laguerre(d[1], xs)
+    if name == "EmaAlpha" and d[-1] == E:
+        return lambda xs: SP.ema(d[1], xs, d[2])
+    if name == "AlmaCustom" and d[-1] == E:
+        return lambda xs: SP.alma(d[1], xs, d[2], d[3])
+    if name == "Eft" and d[2] == E and d[3][0] in ("Echo", "Ema", "Sma") and d[3][-1] == E:
+        return lambda xs: SP.eft(d[1], d[3], xs)
+    if name == "Pfe" and d[2] == E and d[3][0] in ("Echo", "Ema", "Sma") and d[3][-1] == E:
+        return lambda xs: SP.pfe(d[1], d[3], xs)
+    if name in ("WRolling", "WRollingMean", "Drawdown", "LnReturn") and d[-1] == E:
+        f = {"WRolling": SP.wrolling, "WRollingMean": SP.wrolling_mean, "Drawdown": SP.drawdown, "LnReturn": SP.lnreturn}[name]
+        return lambda xs: f(0, xs)
+    return None
+
+def spec_check(pid, cases, what):
+    """implementation's outputs against the batch specification, exactly"""
+    out = []
+    for c in cases:
+        f = spec_for(c.desc)
+        if f is None:
+            continue
+        got = c.outs()
+        if "E" in got or "X" in got or c.ctor_ok is False:
+            out.append(viol(pid.lower() + "-error", "%s failed (panic / non-finite) on in-domain input" % d_sexpr(c.desc), [c]))
+            continue
+        exp = f(c.inputs())
+        for t, (e, g) in enumerate(zip(exp, got)):
+            if e == "skip":
+                continue
+            if e != g:
+                out.append(viol("%s-spec-%s" % (pid.lower(), c.desc[0].lower()),
+                                "%s at step %d reports %s, %s gives %s" % (d_sexpr(c.desc), t + 1, g, what, e), [c], step=t + 1, expected=str(e)))
+                break
+    return out
+
+def no_error(pid, cases):
+    out = []
+    for c in cases:
+        if c.ctor_ok is False or any(b.kind in ("E",) for b in c.obs):
+            out.append(viol(pid.lower() + "-error", "%s failed (panic / non-finite) on in-domain input" % d_sexpr(c.desc), [c]))
+    return out
+
+def approx(x):
+    return float(x) if x is not None and not isinstance(x, str) else x
+
+# ---------------------------------------------------------------------------------- C01
+def c01_chain(groups, f64=False):
+    """group = (chain case, inner case, replay case): chain output == replay of W(Echo) on the inner outputs"""
+    out = []
+    for (chain, inner, rep) in groups:
+        a = chain.outs()
+        b = [None if o.kind == "N" else o.val if o.kind == "S" else o.kind for o in rep.obs]
+        if a != b:
+            t = next(i for i in range(min(len(a), len(b))) if a[i] != b[i]) if len(a) == len(b) else 0
+            out.append(viol("c01-chain", "chain %s differs at step %d from feeding its stand-alone inner view's outputs into %s (%s vs %s)%s"
+                            % (d_sexpr(chain.desc), t + 1, d_sexpr(rep.desc), a[t], b[t], " [f64 bits]" if f64 else ""), [chain, inner, rep], step=t + 1))
+    return out
+
+def c01_binary(groups):
+    out = []
+    for (p, a, b) in groups:
+        po, ao, bo = p.outs(), a.outs(), b.outs()
+        for t in range(len(po)):
+            both = ao[t] is not None and bo[t] is not None
+            if (po[t] is not None) != both:
+                out.append(viol("c01-binary", "%s at step %d reports %s while children report %s / %s" % (d_sexpr(p.desc), t + 1, po[t], ao[t], bo[t]), [p, a, b], step=t + 1))
+                break
+    return out
+
+def c01_probes(cases):
+    out = []
+    for c in cases:
+        xs = c.inputs()
+        shown = [fq(x) if not c.meta.get("mode") == "f64" else None for x in xs]
+        for k, log in c.probes.items():
+            got = [F(v) for v in log] if c.meta.get("mode") != "f64" else log
+            exp = xs if c.meta.get("mode") != "f64" else None
+            if exp is not None and got != exp:
+                out.append(viol("c01-leaves", "leaf %d of %s received %s instead of the raw inputs %s" % (k, d_sexpr(c.desc), [str(g) for g in got][:8], [str(x) for x in xs][:8]), [c]))
+                break
+        if not c.probes:
+            out.append(viol("c01-leaves", "no probe reported for %s" % d_sexpr(c.desc), [c]))
+    return out
+
+# ---------------------------------------------------------------------------------- C03
+def c03(pairs):
+    """pairs of (case1, case2, K, suffix_len, view): outputs on the common suffix from position K on must agree"""
+    out = []
+    for (c1, c2, K, sl, exc) in pairs:
+        o1, o2 = c1.outs(), c2.outs()
+        x1 = c1.inputs()
+        for i in range(K - 1, sl):
+            a, b = o1[len(o1) - sl + i], o2[len(o2) - sl + i]
+            if a == b:
+                continue
+            s = x1[len(x1) - sl:]
+            name = c1.desc[0]
+            n = c1.desc[1]
+            if name == "MyRsi" and len(set(s[max(0, i - n): i + 1])) == 1:
+                continue        # explicitly holding: flat window
+            if name == "Roc" and i - n >= 0 and s[i - n] == 0:
+                continue        # explicitly holding: zero base
+            out.append(viol("c03-memory-" + name.lower(), "%s: two histories sharing their last %d values give %s and %s (position %d of the common suffix, K=%d)"
+                            % (d_sexpr(c1.desc), sl, a, b, i + 1, K), [c1, c2], suffix_len=sl, K=K))
+            break
+    return out
+
+# ---------------------------------------------------------------------------------- C04 / C07 hull-type checks
+def c04_single(cases):
+    out = []
+    for c in cases:
+        name, n = c.desc[0], c.desc[1]
+        xs, got = c.inputs(), c.outs()
+        for t, g in enumerate(got):
+            if g is None or isinstance(g, str):
+                continue
+            w = xs[:t + 1] if name == "Ema" else xs[max(0, t + 1 - n): t + 1]
+            if not (min(w) <= g <= max(w)):
+                out.append(viol("c04-hull-" + name.lower(), "%s at step %d reports %s outside the hull [%s, %s] of the values it averages" % (d_sexpr(c.desc), t + 1, g, min(w), max(w)), [c], step=t + 1))
+                break
+            if len(set(xs[:t + 1])) == 1 and g != xs[0]:
+                out.append(viol("c04-constant-" + name.lower(), "%s does not reproduce the constant input %s: %s" % (d_sexpr(c.desc), xs[0], g), [c], step=t + 1))
+                break
+    return out
+
+def pointwise_rel(key, msg, pairs, rel):
+    """pairs: (base case, transformed case, params); rel(base_out, transformed_out, params, t, base_case) -> bool"""
+    out = []
+    for (c1, c2, prm) in pairs:
+        o1, o2 = c1.outs(), c2.outs()
+        for t, (a, b) in enumerate(zip(o1, o2)):
+            if isinstance(a, str) or isinstance(b, str):
+                out.append(viol(key + "-error", "error during %s" % d_sexpr(c1.desc), [c1, c2]))
+                break
+            if (a is None) != (b is None):
+                out.append(viol(key, "%s: readiness differs at step %d (%s vs %s) %s" % (d_sexpr(c1.desc), t + 1, a, b, msg), [c1, c2], step=t + 1, params=str(prm)))
+                break
+            if a is None:
+                continue
+            r = rel(a, b, prm, t, c1)
+            if r is False:
+                out.append(viol(key, "%s at step %d: %s -> %s %s (%s)" % (d_sexpr(c1.desc), t + 1, a, b, msg, prm), [c1, c2], step=t + 1, params=str(prm)))
+                break
+    return out
